@@ -14,6 +14,7 @@ from __future__ import annotations
 
 import itertools
 import os
+import sys
 import subprocess
 import tempfile
 import time
@@ -948,6 +949,8 @@ class Ctx:
                 res = True
             self.decisions.append(res)
             c = z if res else z3.Not(z)
+            if os.environ.get("VERIF_TRACE"):
+                print(f"[trace] fork #{k}: {str(c)[:300]}", file=sys.stderr, flush=True)
             self.pathcond.append(c)
             self.solver.add(c)
             if _int_only(c):
@@ -1025,6 +1028,8 @@ class Ctx:
         status, backend, model, detail = self._discharge(g, hyps)
         ms = (time.time() - t0) * 1e3
         ob = Obligation(name, status, backend, ms, path, model=model, detail=detail, tag=tag)
+        if os.environ.get("VERIF_TRACE"):
+            print(f"[trace] {name} path={path} {status} {backend} {ms / 1e3:.1f}s", file=sys.stderr, flush=True)
         self.session.record(ob)
         return status == "discharged"
 
